@@ -47,7 +47,8 @@ def worst_case(args):
             tols.append(t)
         alg = _alg(prob, EvaluatorType.WORST_CASE)
         designs = []
-        for t, size in enumerate(sizes):
+        for t, maxsize in enumerate(sizes):
+            size = 1 + ctx.choice('size_batch%d' % t, maxsize)      # every batch size 1..max is explored
             batch = [Individual(ec.sym_vector(ctx, 'b%d_d%d' % (t, j), prob)) for j in range(size)]
             orig = {id(d): list(d.vector) for d in batch}
             c0 = len(prob.h.calls)
@@ -96,7 +97,8 @@ def gradient(args):
         prob.costs = list(base_costs)
         alg = _alg(prob, EvaluatorType.GRADIENT)
         delta = 1e-4
-        for t, size in enumerate(sizes):
+        for t, maxsize in enumerate(sizes):
+            size = 1 + ctx.choice('size_batch%d' % t, maxsize)
             batch = [Individual(ec.sym_vector(ctx, 'b%d_d%d' % (t, j), prob)) for j in range(size)]
             orig = [list(d.vector) for d in batch]
             c0 = len(prob.h.calls)
@@ -135,12 +137,12 @@ def configs(tier):
     def gr(dim, o, batches):
         out.append({'name': 'grad-dim%d-o%d-%s' % (dim, o, 'x'.join(map(str, batches))), 'task': 'gradient',
                     'args': {'dim': dim, 'o': o, 'batches': batches}, 'weight': sum(batches) * dim, 'engine': {'validate': 10}})
-    wc(1, 1, (1, 1, 1))
+    wc(1, 1, (2, 2, 2))
     wc(2, 1, (2, 1, 2))
-    wc(1, 2, (1, 2, 1))
-    wc(2, 2, (1, 1))
-    gr(1, 1, (1, 1))
-    gr(2, 1, (2, 1))
+    wc(1, 2, (1, 2, 2))
+    wc(2, 2, (2, 2))
+    gr(1, 1, (2, 2))
+    gr(2, 1, (2, 2))
     gr(2, 2, (1, 2))
     if tier == 'thorough':
         wc(3, 1, (2, 2, 2))
